@@ -404,6 +404,8 @@ def work_emit(tasks):
         except Exception as e:  # noqa  (vsim could not parse/elaborate/simulate what the compiler emitted)
             r = {"status": "simfail", "error": f"{type(e).__name__}: {str(e)[:200]}"}
         r["task"] = t
+        if r["status"] == "rejected" and term.startswith("conv:"):
+            r["status"] = "conv_rejected"  # Signed -> Unsigned, Unsigned -> Signed of equal width: statically refused
         if r["status"] in ("mismatch", "static"):
             r["key"], r["grouped"] = emit_key(q, kind, W, chain, term, mode, r)
         r.pop("vhdl", None)
@@ -417,6 +419,8 @@ def emit_tasks(run: Run):
     arr_q = [("Signal", None), ("Variable", None)]
     typed_q = [("Signal", None), ("Variable", None), ("Port", "IN")]
     sib_q = typed_q + [("LSignal", None)]
+    conv_q = [("Signal", None), ("Variable", None), ("Port", "OUT")]
+    nr_q = [("Signal", None), ("Port", "OUT")]
     ALL = ("whole", "iter")
     TYPED = V.TYPED_TERMS  # uses of the view's type: deduced Variable, operator with an operand of the documented type
     # (root kind, root width, max chain length, extended operations, qualifier kinds, operation filter, terminals)
@@ -429,7 +433,13 @@ def emit_tasks(run: Run):
            # roots constructed inside the clocked body from a run-time value (multi-clock simulation, view vs whole object)
            ("BV", 4, 2, False, V.LOCAL_Q, None, ALL),
            # sibling views in ONE design (view, its three cast views, a second copy), both statement orders, concurrent/clocked
-           ("BV", 4, 2, False, sib_q, None, V.SIB_TERMS)]
+           ("BV", 4, 2, False, sib_q, None, V.SIB_TERMS),
+           # assignment conversions THROUGH views: run-time Unsigned/Signed sources of every width <= the view's width written
+           # through every Unsigned/Signed-typed view of roots of all three kinds (value preserving conversion to the VIEW's type)
+           ("BV", 4, 2, False, conv_q, None, ("CONV",)), ("U", 4, 2, False, conv_q, None, ("CONV",)),
+           ("S", 4, 2, False, conv_q, None, ("CONV",)),
+           # root attributes seen through views: default + noreset=True|False, written only through the view, then reset
+           ("BV", 4, 2, False, nr_q, None, V.NORESET_TERMS)]
     if run.thorough:
         fam = [("BV", 4, 2, False, V.QKINDS, None, ALL + TYPED), ("BV", 5, 2, False, V.QKINDS, None, ALL),
                ("BV", 6, 2, False, V.QKINDS, None, ALL),
@@ -439,19 +449,30 @@ def emit_tasks(run: Run):
         for kind in ("BV", "U", "S"):
             fam += [(kind, 1, 2, True, V.QKINDS, None, ALL + TYPED), (kind, 2, 2, False, V.QKINDS, None, ALL + TYPED)]
             fam += [(kind, 4, 2, False, V.LOCAL_Q, None, ALL), (kind, 4, 2, False, sib_q, None, V.SIB_TERMS)]
+        fam += [(kind, 4, 2, False, conv_q + [("Port", "INOUT")], None, ("CONV",)) for kind in ("BV", "U", "S")]
+        fam += [("BV", 4, 2, False, nr_q, None, V.NORESET_TERMS), ("BV", 5, 2, False, nr_q, None, V.NORESET_TERMS),
+                ("BV", 5, 2, False, conv_q, None, ("CONV",))]
         fam += [("BV", 5, 2, False, V.LOCAL_Q, None, ALL), ("BV", 5, 2, False, sib_q, None, V.SIB_TERMS),
                 ("BV", 4, 3, False, V.LOCAL_Q + [("Signal", None)], V.SUBSCRIPTS, V.SIB_TERMS)]
     seen = set()
     for kind, W, maxlen, ext, qs, only, terms in fam:
         for ch, m in V.chains(kind, W, maxlen, ext, only):
+            tt = []
             for term in terms:
-                if term == "iter" and m[0] == "Bit":
+                tt += V.conv_terms(len(m[1])) if term == "CONV" and m[0] in ("U", "S") and ch else ([] if term == "CONV" else [term])
+            for term in tt:
+                if term.endswith("iter") and m[0] == "Bit":
                     continue
+                special = term.startswith("conv:") or term.startswith("nr")
                 for q in qs:
                     if (kind, W, ch, term, q) in seen:
                         continue
                     seen.add((kind, W, ch, term, q))
                     for mode in ("read", "write"):
+                        if special:
+                            if mode == "write":
+                                yield (q, kind, W, ch, term, mode)
+                            continue
                         if mode == "write" and ((q not in V.WRITABLE and q != ("LVariable", None)) or term in TYPED
                                                 or term in V.SIB_TERMS):
                             continue
@@ -514,7 +535,7 @@ def part_emit(run: Run):
         else:
             run.tool_error(f"{len(simfail)} wrappers could not be simulated, first: {simfail[0]}")
     acc = run.counters.get("emit_ok", 0) + run.counters.get("emit_mismatch", 0) + run.counters.get("emit_static", 0)
-    applicable = len(tasks) - run.counters.get("emit_na", 0)
+    applicable = len(tasks) - run.counters.get("emit_na", 0) - run.counters.get("emit_conv_rejected", 0)
     # vacuity guard: only meaningful for a run that found nothing (a defect in the view machinery can make the
     # compiler reject many wrappers; the run has then already produced its verdict through the violations)
     if applicable == 0 or (acc * 10 < applicable * 9 and not run.violations):
